@@ -114,6 +114,10 @@ func runWorkers(s *prep.Scratch, o opts, cases int, maxS float64, extra ...strin
 				}
 				cmd := exec.Command(s.Worker, args...)
 				cmd.Dir = s.Dir
+				if s.WorkerRace {
+					racelog := filepath.Join(outDir, fmt.Sprintf("race-w%d-%d", k, attempt))
+					cmd.Env = append(os.Environ(), "VERIFSIM_RACELOG="+racelog, "GORACE=log_path="+racelog+" halt_on_error=0 exitcode=0")
+				}
 				var eb bytes.Buffer
 				cmd.Stdout = &eb
 				cmd.Stderr = &eb
@@ -194,7 +198,7 @@ func runEngine1(o opts) int {
 	if o.maxS > 0 {
 		spec.maxS = o.maxS
 	}
-	s, err := prep.Buildsim(o.repo)
+	s, err := prep.BuildsimOpt(o.repo, o.prop == "C12")
 	defer s.Cleanup()
 	if err != nil {
 		fatal2("%v", err)
@@ -397,6 +401,10 @@ func runReplayN(s *prep.Scratch, path string, retries int, sameProcess bool) (st
 	}
 	cmd := exec.Command(s.Worker, args...)
 	cmd.Dir = s.Dir
+	if s.WorkerRace {
+		racelog := filepath.Join(s.Dir, "race-replay")
+		cmd.Env = append(os.Environ(), "VERIFSIM_RACELOG="+racelog, "GORACE=log_path="+racelog+" halt_on_error=0 exitcode=0")
+	}
 	var b bytes.Buffer
 	cmd.Stdout = &b
 	cmd.Stderr = &b
